@@ -336,7 +336,7 @@ fn check_files(case: &Json, stats: &mut Stats) -> Verdict {
 
 /// two shared cells, each updated from the content of the other: (setup yielding (a, b, f, g), f and g
 /// take the iteration number; every value they return and the final contents are subsets of `mask`)
-const CROSS: [(&str, i64); 15] = [
+const CROSS: [(&str, i64); 19] = [
     ("a := mut 5; b := mut 48; f := (k: int) -> int { return a |= *b; }; g := (k: int) -> int { return b |= *a; }; (a, b, f, g)", 0x35),
     ("a := mut 5; b := mut 48; f := (k: int) -> int { a = *b; return a |= *b; }; g := (k: int) -> int { b = *a; return b |= *a; }; (a, b, f, g)", 0x35),
     ("a := mut 255; b := mut 15; f := (k: int) -> int { return a &= *b | 3; }; g := (k: int) -> int { return b &= *a | 12; }; (a, b, f, g)", 0xff),
@@ -349,6 +349,12 @@ const CROSS: [(&str, i64); 15] = [
     ("a := mut [int] [1, 2]; b := 0; h := (x: [int], y: [int], i: int) -> int { return x[i] - x[i]; }; f := (k: int) -> int { return h(*a, *a, std.len(*a) - 1); }; g := (k: int) -> int { a = [k, k]; return 0; }; (a, b, f, g)", 0),
     ("a := mut \"ab\"; b := 0; f := (k: int) -> int { return std.len((*a)[std.len(*a) - 1]) & 0; }; g := (k: int) -> int { a = \"cd\"; return 0; }; (a, b, f, g)", 0),
     ("a := mut [int]|string [1, 2]; b := 0; f := (k: int) -> int { if x: [int] = *a { return x[std.len(x) - 1] & 0; } return 0; }; g := (k: int) -> int { if k % 2 == 0 { a = \"s\"; } else { a = [k, k]; }; return 0; }; (a, b, f, g)", 0),
+    // a compound value in a cell is read as a whole: taken apart by destructuring, by two accesses in one
+    // expression after one read, by a match - while others assign whole values whose parts belong together
+    ("a := mut (int, int) (0, 0); b := 0; f := (k: int) -> int { (p, q) := *a; return p + q; }; g := (k: int) -> int { a = (k, 0 - k); return 0; }; (a, b, f, g)", 0),
+    ("a := mut (int, int) (0, 0); b := 0; f := (k: int) -> int { t := *a; return t.0 + t.1; }; g := (k: int) -> int { a = (k, 0 - k); return 0; }; (a, b, f, g)", 0),
+    ("a := mut [int] [0, 0]; b := 0; f := (k: int) -> int { v := *a; return v[0] + v[1]; }; g := (k: int) -> int { a = [k, 0 - k]; return 0; }; (a, b, f, g)", 0),
+    ("a := mut struct{x: int, y: int} struct{x := 0, y := 0}; b := 0; f := (k: int) -> int { s := *a; return s.x + s.y; }; g := (k: int) -> int { a = struct{x := k, y := 0 - k}; return 0; }; (a, b, f, g)", 0),
     // cells that contain themselves (directly, inside an array / tuple / struct, or one another),
     // rendered as text by some executions while others assign to them
     ("a := mut any 0; a = a; b := 0; f := (k: int) -> int { return std.len(std.convert.to_string(a)) & 0; }; g := (k: int) -> int { a = a; return 0; }; (a, b, f, g)", 0),
